@@ -400,7 +400,7 @@ theorem clamp_transpose_in_bounds (a lo hi mn mx : Int) (h1 : mn ≤ lo) (h3 : h
     (a < 0 → a ≤ clampTranspose a lo hi mn mx ∧ clampTranspose a lo hi mn mx ≤ 0) ∧
     (mn ≤ lo + a ∧ hi + a ≤ mx → clampTranspose a lo hi mn mx = a) := by
   unfold clampTranspose
-  split <;> simp only [] <;> omega
+  split <;> omega
 
 example : clampTranspose (-5) 3 90 0 127 = -3 ∧ clampTranspose 50 3 90 0 127 = 37 ∧
     clampTranspose 4 3 90 0 127 = 4 := by decide +kernel
